@@ -343,6 +343,7 @@ type Variant struct {
 	NoTimeClip      bool // results are not passed through TimeClip's range test
 	YearTestNoToInt bool // the 0..99 two-digit-year test is applied to the raw number, ToInteger only afterwards
 	NaNYearSticky   bool // setUTCFullYear leaves an invalid date invalid
+	LocalZeroYear   bool // local setFullYear on an invalid date starts from LocalTime(+0) instead of t = +0
 }
 
 func (v Variant) clip(t float64) float64 {
@@ -359,7 +360,12 @@ func (v Variant) clip(t float64) float64 {
 // constructor (15.9.3.1) with LocalTZA = 0 and no daylight saving (UTC(t) = t):
 // year and month are mandatory, date defaults to 1, the others to 0; a year
 // whose ToInteger lies in 0..99 means 1900+that; the result is clipped.
-func FromFields(v Variant, args []Arg) float64 {
+func FromFields(v Variant, args []Arg) float64 { return FromFieldsLocal(v, args, 0) }
+
+// FromFieldsLocal is the 2..7-argument constructor (15.9.3.1) in a zone with
+// constant LocalTZA = tza ms and DaylightSavingTA = 0: the fields are local time,
+// the time value is TimeClip(UTC(MakeDate(...))) with UTC(t) = t - LocalTZA (15.9.1.9).
+func FromFieldsLocal(v Variant, args []Arg, tza float64) float64 {
 	y := argOr(args, 0, math.NaN())
 	m := argOr(args, 1, math.NaN())
 	dt := argOr(args, 2, 1)
@@ -377,7 +383,7 @@ func FromFields(v Variant, args []Arg) float64 {
 			yr = 1900 + yi
 		}
 	}
-	return v.clip(MakeDate(MakeDay(yr, m, dt), MakeTime(h, mi, s, ms)))
+	return v.clip(MakeDate(MakeDay(yr, m, dt), MakeTime(h, mi, s, ms)) - tza)
 }
 
 // FromValue is new Date(value) for a non-string primitive already reduced by
@@ -411,13 +417,26 @@ var SetterMaxArgs = [...]int{1, 2, 3, 4, 1, 2, 3, 1}
 // the setter's return value (15.9.5.27-15.9.5.41). An absent mandatory first
 // argument is ToNumber(undefined) = NaN; absent optional arguments take the
 // corresponding component of t.
-func Apply(v Variant, s Setter, t float64, args []Arg) float64 {
+func Apply(v Variant, s Setter, t float64, args []Arg) float64 { return ApplyLocal(v, s, t, args, 0) }
+
+// ApplyLocal performs the LOCAL twin of setter s (setMilliseconds ... setFullYear;
+// 15.9.5.28-40, even-numbered clauses) in a zone with constant LocalTZA = tza ms and
+// DaylightSavingTA = 0: t is LocalTime(this time value) = t + LocalTZA, the result is
+// TimeClip(UTC(composed local time)) with UTC(u) = u - LocalTZA. setFullYear uses
+// t = +0 (not LocalTime(+0)) when the time value is NaN (15.9.5.40 step 1).
+// With tza = 0 this is the UTC setter. setTime does not depend on the zone.
+func ApplyLocal(v Variant, s Setter, t float64, args []Arg, tza float64) float64 {
 	first := argOr(args, 0, math.NaN())
 	if s == SetTime {
 		return v.clip(first)
 	}
 	if s == SetUTCFullYear && math.IsNaN(t) && !v.NaNYearSticky {
-		t = 0 // 15.9.5.41 step 1
+		t = 0 // 15.9.5.40 / 15.9.5.41 step 1
+		if v.LocalZeroYear {
+			t += tza
+		}
+	} else {
+		t += tza // LocalTime(t); NaN stays NaN
 	}
 	// components of t; every one is NaN when t is NaN
 	nan := math.NaN()
@@ -449,5 +468,5 @@ func Apply(v Variant, s Setter, t float64, args []Arg) float64 {
 	default:
 		panic("ref/date: unknown setter")
 	}
-	return v.clip(u)
+	return v.clip(u - tza)
 }
